@@ -284,6 +284,10 @@ func (m *AWSKMS) DecryptKey(ctx context.Context, keyBytes []byte) ([]byte, error
 			}
 
 			decryptedKeyBytes, err := m.Crypto.Decrypt(en.EncryptedKey, output.Plaintext)
+
+			// the data key has done its job, whether or not it opened the envelope
+			internal.MemClr(output.Plaintext)
+
 			if err != nil {
 				log.Debugf("error crypto decrypt: %s\n", err)
 				continue
